@@ -421,7 +421,7 @@ func c01World(t *testing.T, p c01Params) rt.Result {
 
 func TestC01(t *testing.T) {
 	c := rt.Get()
-	n := c.N(6000, 200000)
+	n := c.N(24000, 400000)
 	for i := 0; i < n; i++ {
 		if !c.Mine("worlds", i) {
 			continue
